@@ -25,10 +25,11 @@ const (
 	Bounded                // ≤3 preemptions at pre-chosen step indices
 	WalkSlow               // switch with probability 1/8 at every yield
 	WalkFast               // switch with probability 1/3 at every yield
+	AfterPut               // switch (probability 1/2) right after an object went into a pool, otherwise like WalkSlow
 )
 
 func (p Policy) String() string {
-	return [...]string{"serial", "bounded-preemption", "random-walk-1/8", "random-walk-1/3"}[p]
+	return [...]string{"serial", "bounded-preemption", "random-walk-1/8", "random-walk-1/3", "switch-after-pool-put"}[p]
 }
 
 type Task struct {
@@ -82,10 +83,12 @@ func PickPolicy(src *tape.Source) Policy {
 		return Serial
 	case v <= 4:
 		return Bounded
-	case v <= 7:
+	case v <= 6:
 		return WalkSlow
-	default:
+	case v <= 8:
 		return WalkFast
+	default:
+		return AfterPut
 	}
 }
 
@@ -195,6 +198,14 @@ func (s *Sched) yield(k simhook.Kind, obj uintptr) {
 		sw = s.S.Intn(8, "sched.switch") == 7
 	case WalkFast:
 		sw = s.S.Intn(3, "sched.switch") == 2
+	case AfterPut:
+		// the classic use-after-put window: the putter still works on what another
+		// task may now take out of the pool
+		if k == simhook.KPoolPutDone {
+			sw = s.S.Intn(2, "sched.switch") == 1
+		} else {
+			sw = s.S.Intn(8, "sched.switch") == 7
+		}
 	}
 	if !sw {
 		return
